@@ -101,6 +101,9 @@ class LoopModel:
         if lp["tag"] == "for":
             if n == 0:
                 return "ELSE;" if lp.get("else") else ""
+            if lp.get("quiet") is not None:
+                # a body without any output (an assignment only): the items are visited, nothing is printed
+                return ""
             for i, x in enumerate(seg):
                 helper = {"index": i + 1}
                 parent = self.for_stack[-1]["index"] if self.for_stack else ""
@@ -181,7 +184,14 @@ def loop_src(lp: dict[str, Any]) -> str:
             body += f"{{% if forloop.index == {lp['continue_at']} %}}{{% continue %}}{{% endif %}}"
         body += "".join(loop_src(c2) for c2 in lp.get("body", [])) + ";"
         els = "{% else %}ELSE;" if lp.get("else") else ""
-        return f"{{% for {head} %}}{body}{els}{{% endfor %}}"
+        if lp.get("quiet") is not None:
+            body = lp["quiet"]
+        src = f"{{% for {head} %}}{body}{els}{{% endfor %}}"
+        w = lp.get("wrap")
+        if w:
+            src = {"if": "{% if true %}@{% endif %}", "unless": "{% unless false %}@{% endunless %}", "case": "{% case 1 %}{% when 1 %}@{% endcase %}",
+                   "for1": "{% for w_ in (1..1) %}@{% endfor %}", "else": "{% if false %}{% else %}@{% endif %}", "capture": "{% capture cw %}@{% endcapture %}{{ cw }}"}[w].replace("@", src)
+        return src
     h = "tablerowloop"
     body = (
         f"<{item}|{{{{ {h}.index }}}}|{{{{ {h}.index0 }}}}|{{{{ {h}.rindex }}}}|{{{{ {h}.rindex0 }}}}|{{{{ {h}.first }}}}|{{{{ {h}.last }}}}|{{{{ {h}.length }}}}"
